@@ -71,6 +71,15 @@ CHECKS = {
         "bounds": {"segments": 3},
         "assumptions": A_COMMON + ["A-HASH: sha256 is modelled as an injective function with 32-byte results (collision freedom)"],
     },
+    "C12": {
+        "groups": [{"pkgs": "./x/storage/keeper", "fns": ["VH_C12_band", "VH_C12_monotone", "VH_C12_same_block", "VH_C12_one_gauge"], "opts": {"j": 4, "w": 4}}],
+        "covers": ["C12/band-reached", "C12/monotone-reached", "C12/same-block-reached", "C12/inside-interval", "C12/outside-interval"],
+        "bounds": {"deposit": "<= 10^17 per denomination", "duration": "< 2^45 microseconds (~1.1 years)", "gauges": "1 (contract), 2 (same block)", "denominations": 1},
+        "assumptions": A_COMMON + A_STORE + A_BANK + ["A-HASH", "A-TIME: block time never decreases (now >= gauge start)",
+                       "only the module moves gauge funds (no third-party transfers into a gauge account)",
+                       "inductive pre-state: earlier reward blocks released at most the closed form's current value (monotone: VH_C12_monotone)"],
+        "outside": ["the unreleased remainder when the first reward block after End deletes the gauge"],
+    },
     "C13": {
         "groups": [{"pkgs": "./x/jklmint/utils", "fns": ["VH_C13_*"]}, {"pkgs": "./x/jklmint/keeper", "fns": ["VH_C13_*"]}],
         "covers": ["C13/kernel-reached", "C13/owed-reached", "C13/blockmint-done"],
